@@ -13,3 +13,57 @@ package outlier
 //@   panics never
 //@   witness n = len(rules)
 //@   replay loadrules_nil
+
+// ---- C20: the nodes reported for filtering
+// the per-request snapshot of the node breakers (a copy of the registry entry; the copy loop is not under contract)
+//@ func getNodeBreakersOfResource(resource) r
+//@   assumed
+//@   ensures r != nil && fresh(r) && len(r) == len(nodeBreakers[resource]) && (forall a Str :: has(r, a) == has(nodeBreakers[resource], a) && r[a] == nodeBreakers[resource][a])
+//@   modifies nothing
+
+//@ spec func rejects(b) = !sel(gLastTry, dynptr(b))
+
+//@ func checkAllNodes(ctx) (filters, outliers, halfs)
+//@   props C20
+//@   requires ctx != nil && ctx.Resource != nil && outlierRules[ctx.Resource.name] != nil
+//@   let rule = outlierRules[ctx.Resource.name]
+//@   let nodes = nodeBreakers[ctx.Resource.name]
+//@   let n = len(nodes)
+//@   requires 0.0 <= rule.MaxEjectionPercent && rule.MaxEjectionPercent <= 1.0 && 0 <= n && n <= 1048576 && (forall a Str :: has(nodes, a) ==> nodes[a] != nil)
+//@   requires forall a Str :: forall b Str :: has(nodes, a) && has(nodes, b) && a != b ==> dynptr(nodes[a]) != dynptr(nodes[b])
+//@   ensures[share-bound] len(filters) <= floor(R(n) * rule.MaxEjectionPercent)
+//@   ensures[filtered-reject] forall j Int :: 0 <= j && j < len(filters) ==> has(nodes, filters[j]) && rejects(nodes[filters[j]])
+//@   ensures[outliers-reject] forall j Int :: 0 <= j && j < len(outliers) ==> has(nodes, outliers[j]) && rejects(nodes[outliers[j]])
+//@   ensures[half-open-are-passive-probes] forall j Int :: 0 <= j && j < len(halfs) ==> has(nodes, halfs[j]) && !rejects(nodes[halfs[j]]) && !rule.EnableActiveRecovery
+//@   loop 1:
+//@     invariant[share-bound] len(filters) <= floor(R(n) * rule.MaxEjectionPercent)
+//@     invariant[fresh-lists] (cap(filters) == 0 || fresh(base(filters))) && (cap(outliers) == 0 || fresh(base(outliers))) && (cap(halfs) == 0 || fresh(base(halfs)))
+//@     invariant[separate-lists] (cap(filters) > 0 && cap(outliers) > 0 ==> base(filters) != base(outliers)) && (cap(filters) > 0 && cap(halfs) > 0 ==> base(filters) != base(halfs)) && (cap(outliers) > 0 && cap(halfs) > 0 ==> base(outliers) != base(halfs))
+//@     invariant[filtered-reject] forall j Int :: 0 <= j && j < len(filters) ==> has(nodes, filters[j]) && sel(#seen, filters[j]) && rejects(nodes[filters[j]])
+//@     invariant[outliers-reject] forall j Int :: 0 <= j && j < len(outliers) ==> has(nodes, outliers[j]) && sel(#seen, outliers[j]) && rejects(nodes[outliers[j]])
+//@     invariant[half-open-known] forall j Int :: 0 <= j && j < len(halfs) ==> has(nodes, halfs[j]) && sel(#seen, halfs[j])
+//@     invariant[half-open-passing] forall j Int :: 0 <= j && j < len(halfs) ==> !rejects(nodes[halfs[j]])
+//@     invariant[half-open-passive] len(halfs) > 0 ==> !rule.EnableActiveRecovery
+//@     invariant[registry-untouched] nodeBreakers[ctx.Resource.name] == nodes && outlierRules[ctx.Resource.name] == rule
+
+// ---- recycling: a node is only removed when it is marked "not recovered"; a successful completion marks it recovered
+//@ func deleteNodeBreakerOfResource(resource, address)
+//@   assumed
+//@   ensures gDeleted == old(gDeleted) + 1
+//@   modifies gDeleted, mapof(nodeBreakers[resource])
+//@ ghost var gDeleted Int
+
+//@ func (r *Recycler) recover(node)
+//@   props C20
+//@   requires r != nil && r.status != nil
+//@   ensures[marks-recovered] old(has(r.status, node)) ==> has(r.status, node) && r.status[node]
+//@   ensures[unknown-node-ignored] !old(has(r.status, node)) ==> !has(r.status, node)
+//@   ensures[others-untouched] forall k Str :: k != node ==> has(r.status, k) == old(has(r.status, k)) && r.status[k] == old(r.status[k])
+//@   modifies mapof(r.status)
+
+//@ func (r *Recycler) recycle(node)
+//@   props C20
+//@   requires r != nil && r.status != nil && ref(r.status) != ref(nodeBreakers[r.resource])
+//@   ensures[removed-only-if-not-recovered] gDeleted == old(gDeleted) + (old(has(r.status, node)) && !old(r.status[node]) ? 1 : 0)
+//@   ensures[forgotten] !has(r.status, node)
+//@   ensures[others-untouched] forall k Str :: k != node ==> has(r.status, k) == old(has(r.status, k)) && r.status[k] == old(r.status[k])
